@@ -42,12 +42,34 @@ def wide_pool(w):
     return sorted({p for p in pool if 0x7F < p <= top and p not in SPECIALS})
 
 
+ENTITIES = ["&amp;", "&lt;", "&gt;", "&quot;", "&apos;"]
+
+
+def aliased_entity(rng, w):
+    """an entity text (complete, or cut short) in which one or two units - a letter of the name, the '&' or the
+    ';' - are replaced by a wide unit with the same low byte / low half / packed-word image (x + k*0x100,
+    x + k*0x10000): not an entity, so its '&' must be escaped (seeded/C03-h1 compared a packed 3-unit word)"""
+    top = 0xFFFF if w == "2" else 0x7FFFFFFF if w == "W" else 0xFFFFFFFF
+    e = [ord(c) for c in rng.choice(ENTITIES)]
+    if rng.random() < 0.3:
+        e = e[:rng.randrange(2, len(e))]
+    for _ in range(rng.choice([1, 1, 2])):
+        i = rng.randrange(len(e))
+        ks = [0x100, 0x300, 0x400, 0xFF00] + ([0x10000, 0x30000, 0x100000, 0x1000000] if top > 0xFFFF else [])
+        v = e[i] % 0x100 + rng.choice(ks)
+        if v <= top and not (0xD800 <= v <= 0xDFFF):
+            e[i] = v
+    return e
+
+
 def wide_string(rng, w, lo=1, hi=7):
     pool = wide_pool(w)
     out = []
     for _ in range(rng.randrange(lo, hi)):
         x = rng.random()
-        if x < 0.55:
+        if x < 0.12:
+            out += aliased_entity(rng, w)
+        elif x < 0.55:
             out.append(rng.choice(pool))
         elif x < 0.75:
             out.append(rng.choice(SPECIALS + [0x3B]))
